@@ -6,7 +6,7 @@ import ast
 
 from ..classes import CORE, OPERATOR_BASE, ClassInfo
 from ..kinds import Lin
-from ..linform import InterpRaise, NonLinear
+from ..linform import InterpRaise, LossyCoefficient, NonLinear
 from ..loader import AnalysisError, Incomplete, World, enclosing, module_of, qualname
 from ..mutate import edit_def, find_def, variant
 from ..opkinds import all_mv
@@ -193,6 +193,8 @@ def _derive_tag(ctx, ck, pol, kinds, cls: ClassInfo, tag: str):
     k = s.value.k if s is not None and isinstance(s.value, Lin) else None
     try:
         mats = _polarimetry_matrices(pol, cls)
+    except LossyCoefficient as exc:
+        return False, str(exc)
     except (NonLinear, InterpRaise, Incomplete) as exc:
         return None, f'cannot derive the Mueller matrix: {exc}'
     if tag in ('is_diagonal', 'is_symmetric', 'is_tridiagonal'):
@@ -240,6 +242,8 @@ def _derive_orthogonal(ctx, pol, kinds, cls: ClassInfo):
     if cls in (pol.rot, pol.rott, pol.hwp, pol.plr):
         try:
             mats = _polarimetry_matrices(pol, cls)
+        except LossyCoefficient as exc:
+            return False, str(exc)
         except (NonLinear, InterpRaise, Incomplete) as exc:
             return None, str(exc)
         bad = [L for L, m in mats if m.rows != m.cols or not ((m.T @ m) == Matrix.identity(m.cols))]
@@ -279,9 +283,14 @@ def derive_square(ctx, pol, kinds, cls: ClassInfo):
             for kind in pol.kinds:
                 from ..linform import Rec
 
+                before = len(pol.interp.promotions)
                 y = pol.out_kind(pol.make(cls, angle('a')), kind)
                 if not (isinstance(y, Rec) and y.cls is kind):
                     return False, f'its mv maps a {kind.name} to {getattr(getattr(y, "cls", None), "name", "an array")}: output and input structures differ'
+                promoted = pol.interp.promotions[before:]
+                if promoted and len(y.comps) > 1:
+                    return False, (f'its mv rebuilds the {kind.name} through a helper that promotes all components to one dtype ({promoted[0]}): '
+                                   'for an input whose components have different dtypes the returned leaf dtypes differ from those of the input structure')
         except (NonLinear, InterpRaise, Incomplete) as exc:
             return None, str(exc)
         return True, 'mv returns the Stokes kind it receives, component shapes unchanged'
